@@ -53,7 +53,7 @@ def _inlinable(facts, caller, call, stop, lambdas):
         o = skip_copies(call.get("obj"))
         if not (isinstance(o, dict) and o.get("k") == "this"):
             return None
-    m = facts.methods.get(fid)
+    m = _method_info(facts, f)
     if m is not None:
         # access: 0 public, 1 protected, 2 private (clang AS_* order: public=0, protected=1, private=2)
         if m.get("access") == 0 and "(anonymous namespace)" not in f.name and "Private::" not in f.name:
@@ -67,6 +67,23 @@ def _inlinable(facts, caller, call, stop, lambdas):
     if f.d.get("kind") in ("ctor", "dtor"):
         return None
     return f, call.get("args", [])
+
+
+def _method_info(facts, f):
+    """record entry of a member function; for a member of a class-template instantiation the entry of the template"""
+    m = facts.methods.get(f.id)
+    if m is not None or not f.cls:
+        return m
+    cache = getattr(facts, "_tmpl_methods", None)
+    if cache is None:
+        cache = {}
+        for mm in facts.methods.values():
+            cache.setdefault((strip_tmpl(mm.get("record") or ""), (mm.get("name") or "").split("::")[-1]), []).append(mm)
+        facts._tmpl_methods = cache
+    c = cache.get((strip_tmpl(f.cls), strip_tmpl(f.name).split("::")[-1]), [])
+    if c:
+        return c[0]
+    return {"access": 0, "kind": f.d.get("kind"), "virtual": f.d.get("virtual")} if f.d.get("kind") == "method" else None
 
 
 class _Ids:
@@ -150,6 +167,32 @@ def _flatten_dict(facts, owner, d, stop, depth, ids, active):
                 x["k"] = "inl_return"
                 x["_inl_done"] = True
                 rets.append(x)
+        # every declaration of the callee (parameters, locals, loop variables) gets a name of its own per spliced instance
+        declared = {p["decl"] for p in cd.get("params", [])}
+        for x in walk(body):
+            if x.get("k") == "decl":
+                declared |= {v["decl"] for v in x.get("vars", []) if v.get("decl") and not v.get("static")}
+            elif x.get("k") == "rangefor" and x.get("var", {}).get("decl"):
+                declared.add(x["var"]["decl"])
+        suffix = "@inl%d" % off
+        ren = {dcl: dcl + suffix for dcl in declared}
+        for x in walk(body):
+            if x.get("decl") in ren and x.get("k") in ("ref",):
+                x["decl"] = ren[x["decl"]]
+            if x.get("k") == "decl":
+                for v in x.get("vars", []):
+                    if v.get("decl") in ren:
+                        v["decl"] = ren[v["decl"]]
+            if x.get("k") == "rangefor" and x.get("var", {}).get("decl") in ren:
+                x["var"]["decl"] = ren[x["var"]["decl"]]
+            if x.get("k") == "lambda":
+                for c_ in x.get("captures", []):
+                    if c_.get("decl") in ren:
+                        c_["decl"] = ren[c_["decl"]]
+        for cb in cd["cfg"]["blocks"]:
+            for e in cb["els"]:
+                if e.get("decl") in ren:
+                    e["decl"] = ren[e["decl"]]
         # parameters become locals bound to the arguments
         binds = []
         pdecls = {}
@@ -159,8 +202,8 @@ def _flatten_dict(facts, owner, d, stop, depth, ids, active):
             a = args[pi]
             bid = off + maxid + 1 + pi
             binds.append({"id": bid, "k": "decl", "l": call.get("l", 0), "c": call.get("c", 0), "inl_param": True,
-                          "vars": [{"decl": p["decl"], "name": p.get("name"), "type": p.get("type"), "static": False, "const": False, "init": a}]})
-            pdecls[p["decl"]] = a
+                          "vars": [{"decl": ren[p["decl"]], "name": p.get("name"), "type": p.get("type"), "static": False, "const": False, "init": a}]})
+            pdecls[ren[p["decl"]]] = a
         for x in walk(body):
             if x.get("k") == "ref" and x.get("decl") in pdecls and x.get("dk") == "param":
                 x["dk"] = "local"
@@ -286,7 +329,7 @@ def owner_of(facts, fn, stop=()):
         seen.add(cur.id)
         if cur.id in stop:
             return cur
-        m = facts.methods.get(cur.id)
+        m = _method_info(facts, cur)
         private = cur.lambda_of or "(anonymous namespace)" in cur.name or (m is not None and m.get("access") in (1, 2)) or "Private::" in cur.name
         if not private or (m is not None and m.get("virtual")):
             return cur
